@@ -24,6 +24,10 @@ static int g_cur_fn = 0;
 static const char *g_cur_phase = "dry";
 
 static std::string failed_site(const OpResult &r, const Fault &f) {
+    if (!f.alloc_k && f.alloc_mask) {
+        size_t k = 1 + __builtin_ctzll(f.alloc_mask);
+        if (k <= r.sites.size()) return site_name(r.sites[k - 1]);
+    }
     if (f.alloc_k >= 1 && (size_t)f.alloc_k <= r.sites.size()) return site_name(r.sites[f.alloc_k - 1]);
     return "?";
 }
@@ -156,7 +160,7 @@ static Verdict judge(const Plan &plan, const OpResult &dry, const OpResult &r) {
         return v;
     }
     // the call claims success: then everything observable must equal the fault-free run
-    if (r.digest != dry.digest) {
+    if (r.digest_noerr != dry.digest_noerr) { // (errno is not compared: a failed request leaves ENOMEM behind, which a successful call may keep)
         v.cls = "wrong-success";
         v.detail = "call reports success after a failed allocation but its outputs differ from the fault-free run";
     }
@@ -258,6 +262,7 @@ int c20_batch(const Args &a) {
         Op &op = plan.tasks[0].ops[0];
         op.f.alloc_k = 0;
         op.f.alloc_k2 = 0;
+        op.f.alloc_mask = 0;
         g_cur_plan = &plan;
         g_cur_seed = a.seed;
         g_cur_run = i;
@@ -292,22 +297,22 @@ int c20_batch(const Args &a) {
             st.alloc_ops++;
             st.fn_alloc_ops[op.fn]++;
             int n = (int)dry.nalloc;
-            struct FC { int k, mode, k2; };
+            // Failure patterns are explored adaptively: a faulted execution may make requests the fault-free one
+            // does not (retries, fallbacks, clean-up that allocates), so after each execution the pattern is extended
+            // by one more failing request among those it actually made (up to 3 failures, 48 patterns per call),
+            // besides "everything from the k-th request on fails".
+            struct FC { uint64_t mask; int from_k; };
             std::vector<FC> cases;
-            for (int k = 1; k <= n; k++) { cases.push_back({k, 0, 0}); cases.push_back({k, 1, 0}); }
-            if (n >= 2) {
-                int np = std::min(3, n * (n - 1) / 2);
-                for (int q = 0; q < np; q++) {
-                    int k1 = 1 + cr.below(n - 1);
-                    int k2 = k1 + 1 + cr.below(n - k1);
-                    cases.push_back({k1, 0, k2});
-                    st.pairs++;
-                }
-            }
-            for (auto &fc : cases) {
-                op.f.alloc_k = fc.k;
-                op.f.alloc_mode = fc.mode;
-                op.f.alloc_k2 = fc.k2;
+            for (int k = 1; k <= n && k <= 16; k++) cases.push_back({0, k});
+            for (int k = 1; k <= n && k <= 16; k++) cases.push_back({1ull << (k - 1), 0});
+            std::set<uint64_t> seen;
+            for (size_t ci = 0; ci < cases.size() && ci < 48; ci++) {
+                FC fc = cases[ci];
+                if (!fc.from_k && !seen.insert(fc.mask).second) continue;
+                op.f.alloc_k = fc.from_k;
+                op.f.alloc_mode = fc.from_k ? 1 : 0;
+                op.f.alloc_k2 = 0;
+                op.f.alloc_mask = fc.mask;
                 g_cur_phase = "fault";
                 printf("BEGIN %llu fault\n", (unsigned long long)i);
                 PassResult fp;
@@ -317,14 +322,17 @@ int c20_batch(const Args &a) {
                 st.faulted++;
                 st.fn_faulted[op.fn]++;
                 st.events += r.nev;
+                if (__builtin_popcountll(fc.mask) >= 2) st.pairs++;
                 if (r.nfailed) { st.hit++; st.cases.insert(case_hash(plan)); }
                 else st.not_hit++;
                 Verdict v = judge(plan, dry, r);
                 if (!v.cls.empty()) {
-                    std::string site = failed_site(r, op.f);
+                    Fault fsite = op.f;
+                    if (!fsite.alloc_k && fsite.alloc_mask) fsite.alloc_k = 1 + __builtin_ctzll(fsite.alloc_mask);
+                    std::string site = failed_site(r, fsite);
                     if (v.cls == "leak") {
                         for (auto &al : g_live) site = site_name(al.site);
-                        site += "@fail:" + failed_site(r, op.f);
+                        site += "@fail:" + failed_site(r, fsite);
                     }
                     report(st, a, i, plan, v.cls, site, v.detail);
                 } else if (r.nfailed) {
@@ -332,7 +340,12 @@ int c20_batch(const Args &a) {
                     if (failed) st.out_fail_clean++;
                     else st.out_success_same++;
                 }
+                if (!fc.from_k && __builtin_popcountll(fc.mask) < 3) {
+                    int top = 64 - __builtin_clzll(fc.mask); // highest failing request so far
+                    for (int j = top + 1; j <= (int)r.nalloc && j <= 16; j++) cases.push_back({fc.mask | (1ull << (j - 1)), 0});
+                }
             }
+            op.f.alloc_mask = 0;
             op.f.alloc_k = op.f.alloc_k2 = 0;
         }
         printf("RUNHASH %llu %016llx\n", (unsigned long long)i, (unsigned long long)runhash.h);
@@ -359,11 +372,12 @@ int c20_replay(const std::string &path) {
     Plan dryplan = plan;
     dryplan.tasks[0].ops[0].f.alloc_k = 0;
     dryplan.tasks[0].ops[0].f.alloc_k2 = 0;
+    dryplan.tasks[0].ops[0].f.alloc_mask = 0;
     prepare_pre(dryplan);
     PassResult dp;
     exec_one(dryplan, dp);
     OpResult dry = dp.res[0][0];
-    if (dry.outstanding && cls == "leak" && !plan.tasks[0].ops[0].f.alloc_k) {
+    if (dry.outstanding && cls == "leak" && !plan.tasks[0].ops[0].f.alloc_k && !plan.tasks[0].ops[0].f.alloc_mask) {
         printf("REPRODUCED property=C20 class=leak (fault-free call leaves %u block(s))\n", dry.outstanding);
         return 1;
     }
